@@ -105,11 +105,16 @@ def _problems(ctx_, pid, rules, known):
     for o in obs_for(ctx_, pid):
         if o.verdict == "violation" and R.match_known(o, pid, known) is None:
             bad.setdefault(o.rule, []).append(o)
+    # analysis errors and missing anchors count for the properties that
+    # list the rule themselves (every core rule is listed by at least one);
+    # a property that only inherits a rule's obligations through the call
+    # graph is not made undecidable by that rule's trouble elsewhere
+    own = set(P.PROPS[pid]["rules"])
     errs = {}
     for r, t in rep.errors:
-        if r in rules or r.split(".")[0] in rules:
+        if r in own or r.split(".")[0] in own:
             errs.setdefault(_prefix(r), []).append((r, t))
-    for r, a in rep.missing_anchors(set(rules)):
+    for r, a in rep.missing_anchors(own):
         errs.setdefault(_prefix(r), []).append(
             (r, "anchor=%r matched nothing" % a))
     return bad, errs
@@ -154,6 +159,15 @@ def gather(ctx, pid):
     for sub in list(bad):
         mine = [o for o in obs2 if o.rule == sub]
         if sub not in bad2 and mine and _prefix(sub) not in errs2:
+            # every violated construct must have been looked at again: the
+            # canonical form has an obligation of this sub-rule for the same
+            # construct, or at least for the same function
+            keys2 = {o.key for o in mine}
+            funcs2 = {_func_of_key(o.key) for o in mine}
+            if not all(o.key in keys2 or (
+                    _func_of_key(o.key) is not None and
+                    _func_of_key(o.key) in funcs2) for o in bad[sub]):
+                continue
             del bad[sub]
             obs = [o for o in obs if o.rule != sub] + mine
             cleared.append(sub)
